@@ -346,6 +346,11 @@ func ParseTimestamp(dateStr string) (Timestamp, error) {
 			}
 		}
 
+		// The fraction digits may run to the end of the string: there is no offset to look at.
+		if idx >= len(dateStr) {
+			return invalidTimestamp(dateStr)
+		}
+
 		kind, err := computeTimezoneKind(dateStr, idx)
 		if err != nil {
 			return Timestamp{}, err
